@@ -401,6 +401,15 @@ func layersOf(s *Spec) []Layer {
 		l := mk(s, "*barriers.barrierErr", Leaf, causeText())
 		l.Hidden = []*Spec{s.C}
 		return []Layer{a, stackL(s), mk(s, "*errutil.withPrefix", Prefix, fmtText(s)), l}
+	case "assertwraperr":
+		a := mk(s, "*assert.withAssertionFailure", Transparent, "")
+		a.Assert = true
+		a.Hint = assert.AssertionErrorHint + stdstrings.IssueReferral
+		sec := mk(s, "*secondary.withSecondaryError", Transparent, "")
+		sec.Hidden = s.X
+		l := mk(s, "*barriers.barrierErr", Leaf, causeText())
+		l.Hidden = []*Spec{s.C}
+		return []Layer{a, stackL(s), sec, mk(s, "*errutil.withPrefix", Prefix, "lit "+S(0)+" e="+Text(s.X[0])), l}
 	case "newfw":
 		sec := mk(s, "*secondary.withSecondaryError", Transparent, "")
 		sec.Hidden = []*Spec{s.C}
